@@ -91,7 +91,7 @@ def cases(tier, seed):
 
     rot = [0]
 
-    def add(key, derive, shared, variants, rename_all=None, full=False):
+    def add(key, derive, shared, variants, rename_all=None, full=False, generics=None):
         assert key not in seen
         seen.add(key)
         if tier == "quick" and not full and len(variants) > 4:
@@ -100,7 +100,7 @@ def cases(tier, seed):
             k = rot[0] % len(variants)
             rot[0] += 3
             variants = [(variants + variants)[k + i] for i in range(4)]
-        out.append(Case(key, TypeDef(derive, variants, is_enum=True, shared=shared, rename_all=rename_all)))
+        out.append(Case(key, TypeDef(derive, variants, is_enum=True, shared=shared, rename_all=rename_all, generics=generics)))
 
     D = "Display"
     # ---- wrapping: SHARED mentions `_variant`
@@ -127,6 +127,22 @@ def cases(tier, seed):
     add("wrap_ptr_own_attrs", "Pointer", Attr(["<", P("_variant"), ">"]),
         [Variant("Sl", T1, attr=Attr(["s:", P("_0", "p")])), Variant("Sa", T1, attr=Attr([P(None, "p")], ["*_0"])), Variant("Ua", [], attr=Attr(["u"]))])
     add("wrap_ptr_implicit_single", "Pointer", Attr(["<", P("_variant"), ">"]), [Variant("S", T1), Variant("N", ["x"])])
+    # ---- every Display-like derive: a really wrapping format + variants WITHOUT attribute, whose implicit text is the field under the
+    #      DERIVED trait (the probe's trait letter shows it; seed C07_r2_1: UpperHex used `{:x}`)
+    for t in DISPLAY_LIKE:
+        add("wrap_each_%s_implicit" % SHORT[t], t, Attr(["<", P("_variant"), ">"]), [Variant("S", T1), Variant("N", ["x"])])
+    # ---- generic enums: the field of an attribute-less single-field variant is formatted under the derived trait, so its type needs
+    #      that bound although the wrapping format does not name it (a missing bound is an `/expansion` violation; seed C07_r2_2)
+    GEN = ("<A, B>", "<Probe, Probe>")
+    add("wrap_generic_implicit_fields", D, Attr(["<", P("_variant"), ">"]),
+        [Variant("First", [Field(ty="A")], attr=Attr(["first ", P("_0")])), Variant("Second", [Field(ty="B")]),
+         Variant("Third", [Field("inner", "B")]), Variant("Unit", [])], generics=GEN, full=True)
+    add("wrap_generic_implicit_fields_lhex", "LowerHex", Attr([P(), "!"], ["_variant"]),
+        [Variant("First", [Field(ty="A")], attr=Attr(["first ", P("_0", "x")])), Variant("Second", [Field(ty="B")]),
+         Variant("Third", [Field("inner", "B")]), Variant("Unit", [], attr=Attr(["unit"]))], generics=GEN, full=True)
+    add("dflt_generic_fields", D, Attr(["d ", P("_0")]),
+        [Variant("First", [Field(ty="A")], attr=Attr(["first ", P("_0", "o")])), Variant("Second", [Field(ty="B")]),
+         Variant("Both", [Field(ty="B"), Field(ty="A")])], generics=GEN, full=True)
     # ---- default: SHARED does not mention `_variant`
     add("dflt_text", D, Attr(["shared text"]), pool_mixed("", True) + [Variant("M2", T2)], full=True)
     add("dflt_field_text", D, Attr(["sh ", P("_0")]), pool_tuple(True))
@@ -230,6 +246,11 @@ def rejections():
     rej("variant_lhex_trait_lhex_derive", "LowerHex", Attr([P("_variant", "x")]),
         [Variant("A", T1), Variant("B", [], attr=Attr(["b"]))])                     # (same)
     rej("debug_enum_level_text", "Debug", Attr(["plain"]), [Variant("A", T1), Variant("B", [])])
+    # ... also when the enum has no variant at all (seed C07_r2_3: the check sat inside the loop over the variants)
+    R.append(Program("rej_debug_enum_level_empty_enum", '#[derive(Debug)] #[debug("plain")] enum T {}',
+                     '\nuse crate::common::*;\n\n#[derive(derive_more::Debug)]\n#[debug("plain")]\npub enum T {}\n', [], expect_compile=False))
+    R.append(Program("rej_debug_enum_level_empty_enum_args", '#[derive(Debug)] #[debug("{} {K7:?}", 1)] enum T {}',
+                     '\nuse crate::common::*;\n\n#[derive(derive_more::Debug)]\n#[debug("{} {K7:?}", 1)]\npub enum T {}\n', [], expect_compile=False))
     rej("debug_enum_level_field", "Debug", Attr(["d ", P("_0", "?")]), [Variant("A", T1), Variant("C", T2)])
     return R
 
